@@ -5,3 +5,4 @@ import Argot.Props.C20
 import Argot.Props.C15
 import Argot.Props.C09
 import Argot.Props.C03
+import Argot.Props.C08
